@@ -81,7 +81,9 @@ class Feeder:
             dt = _narrow(NARROW_SCALARS[kind], x)
             return dt(x[0]) if d == 1 else np.array([x], dtype=dt)
         if kind == "frame":
-            return pd.DataFrame([[float(v) for v in x]], columns=self._names(d))
+            # (a one-row slice of a larger frame keeps the row label of the position it came from: 0, the running position, or anything else)
+            self._k += 1
+            return pd.DataFrame([[float(v) for v in x]], columns=self._names(d), index=[self.rng.choice([0, 0, self._k, 7, "r%d" % self._k])])
         if kind == "series":
             return pd.Series([float(v) for v in x], index=self._names(d))
         if kind in ("reused1d", "reused2d"):
@@ -110,7 +112,10 @@ class Feeder:
         if kind == "fortran":
             return np.asfortranarray(a)
         if kind in ("frame", "dupframe"):
-            return pd.DataFrame(a, columns=self._names(d))
+            # row labels as they come: pandas' default, a slice of a larger frame (labels start elsewhere), a shuffled frame - rows are rows
+            style = self.rng.choice(["default", "default", "offset", "shuffled"])
+            idx = None if style == "default" else (range(1000, 1000 + n) if style == "offset" else self.rng.sample(range(n), n))
+            return pd.DataFrame(a, columns=self._names(d), index=idx)
         if kind == "dupindex":         # row labels that repeat (batches glued with pd.concat without ignore_index): rows are rows
             return pd.DataFrame(a, columns=self._names(d), index=[i % 4 for i in range(n)])
         if kind == "intframe":
